@@ -61,7 +61,7 @@ package atree
 //@   ensures[C10] err == nil && storable != nil && is(storable, SlabIDStorable) ==> !uninlined && r == storable
 //@   ensures[C10] err == nil && !uninlined ==> r == storable
 //@   ensures[C18] err != nil ==> r == nil && !uninlined && vid == emptyValueID
-//@   modifies ArrayDataSlab.header, ArrayDataSlab.inlined, MapDataSlab.header, MapDataSlab.inlined, ghost.sto, ghost.stored, ghost.touched, alloc
+//@   modifies ArrayDataSlab.header, ArrayDataSlab.inlined, MapDataSlab.header, MapDataSlab.inlined, ghost.sto, ghost.issued, ghost.stored, ghost.touched, alloc
 
 //@ # ---- overwriting / removing an element of an array: the handle registered for the detached child is forgotten, the handle of
 //@ # the value just stored is kept (also when the same container, possibly wrapped, is stored again at the same position)
@@ -70,9 +70,9 @@ package atree
 //@   requires value != nil && a.Storage != nil
 //@   ensures[C10 C11] err == nil && contV(value) ==> has(a.mutableElementIndex, vvid(unwV(value))) && a.mutableElementIndex[vvid(unwV(value))] == index
 //@   ensures[C10 C11] err == nil && r != nil && !is(r, WrapperStorable) && cvid(r) != emptyValueID && (!contV(value) || cvid(r) != vvid(unwV(value))) ==> !has(a.mutableElementIndex, cvid(r))
-//@   modifies heap, ghost.sto, ghost.stored, ghost.touched, ghost.notified, alloc
+//@   modifies heap, ghost.sto, ghost.issued, ghost.stored, ghost.touched, ghost.notified, ghost.updFail, alloc
 
 //@ func (a *Array) Remove(index) (r, err)  serves C10 C11
 //@   requires a.Storage != nil
 //@   ensures[C11] err == nil && r != nil && !is(r, WrapperStorable) && cvid(r) != emptyValueID ==> !has(a.mutableElementIndex, cvid(r))
-//@   modifies heap, ghost.sto, ghost.stored, ghost.touched, ghost.notified, alloc
+//@   modifies heap, ghost.sto, ghost.issued, ghost.stored, ghost.touched, ghost.notified, ghost.updFail, alloc
